@@ -158,11 +158,12 @@ def raft_run(ctx, note=True):
     return res
 
 
-FRAGMENT = ('core fragment of Props/TierC.v: static membership, no dump file, 1 < batch, every command smaller than a batch, '
-            'serializer idle (no compaction, no snapshot install), voters never restart; read-only nodes, drops, losses, any clocks allowed')
+FRAGMENT = ('fragment of Props/TierC2.v (Props/TierC.v is the same without compaction): static membership, no dump file, 1 < batch, '
+            'every command smaller than a batch (no chunked entries), voters never restart, no snapshot refused for its code version; '
+            'log compaction and snapshot install on voters and read-only nodes, read-only nodes, drops, losses, any clocks allowed')
 PARTIAL = {
-    'C01': ['state-machine safety across nodes is a theorem only for the ' + FRAGMENT + '; with compaction, snapshot install, chunked '
-            'entries, membership change or restarts it rests on the handler-level theorems, the correspondence and the monitor'],
+    'C01': ['state-machine safety across nodes is a theorem only for the ' + FRAGMENT + '; with chunked entries, membership change, '
+            'dump files or restarts it rests on the handler-level theorems, the correspondence and the monitor'],
     'C02': ['"SUCCESS means committed and never undone": C02_success_is_committed_core_partial - the entry whose application fired a '
             'SUCCESS callback sits at an index <= commit with the term it was subscribed with, and every voter that later commits that '
             'index holds the same entry - for the ' + FRAGMENT + '; the link from the callback id back to the submitted command over '
@@ -176,7 +177,8 @@ PARTIAL = {
             'implementation under the monitor only (the model steps are atomic)'],
     'C07': ['the restart clauses of the property are false of the code (term and vote are not persisted): refuted with witnesses, listed '
             'as KF-C07-1/2; without restarts one vote per term and term monotone are theorems'],
-    'C09': ['fork mode and user-supplied serializer functions: implementation under the monitors only'],
+    'C09': ['fork mode and user-supplied serializer functions: implementation under the monitors only; "the snapshot a node holds '
+            'agrees with what any voter committed at that position" (L1_snapshot_agrees_core2) is proved for the ' + FRAGMENT],
     'C10': ['joint safety under membership change (C10_safety_under_change_full) is not proved: gate, one pending change, member set = fold '
             'of the log, single-change majorities intersect are theorems; dynamic membership together with journal files and member '
             'restarts is outside the generators'],
